@@ -117,7 +117,9 @@ def handleE (line : String) : Except String String := do
           | .error e => return s!"diff class=q367-model-error model={clean e} impl=warnings"
           | .ok ms =>
             let tag := if exp.isEmpty then "q367-none" else "q367-warnings"
-            if sortedW ms == sortedW ws then return s!"ok {tag} constrained"
+            if ms.map warnS == ws.map warnS then return s!"ok {tag} constrained"
+            else if sortedW ms == sortedW ws then
+              return s!"diff class=q367-order model={clean (toString (ms.map warnS))} impl={clean (toString (ws.map warnS))}"
             else if matchAll ms exp then return s!"ok {tag} constrained other-sink-chosen"
             else return s!"diff class=q367-warnings model={clean (toString (sortedW ms))} impl={clean (toString (sortedW ws))}"
     else
@@ -134,8 +136,10 @@ def handleE (line : String) : Except String String := do
           else match model with
             | .error e => return s!"diff class=q243-model-error model={clean e} impl=warnings"
             | .ok ms =>
-              if sortedW ms == sortedW ws then
+              if ms.map warnS == ws.map warnS then
                 return s!"ok {if ews.isEmpty then "q243-none" else "q243-warnings"} constrained"
+              else if sortedW ms == sortedW ws then
+                return s!"diff class=q243-order model={clean (toString (ms.map warnS))} impl={clean (toString (ws.map warnS))}"
               else return s!"diff class=q243-warnings model={clean (toString (sortedW ms))} impl={clean (toString (sortedW ws))}"
       | none =>
         match impl, model with
